@@ -4,6 +4,8 @@ import (
 	"fmt"
 	"go/ast"
 	"go/token"
+	"go/types"
+	"strings"
 
 	"defracheck/internal/eng"
 )
@@ -148,4 +150,147 @@ func ruleSeenSet(c *eng.Ctx, rule string, pkgs []string, floor int) {
 		}
 	}
 	c.Floor(rule, n, floor)
+}
+
+// ruleOrderDirectionCarried: an order condition is (field path, direction); a literal that names
+// the path but not the direction silently orders ascending. Every keyed OrderCondition literal in
+// the planner sets Direction explicitly.
+func ruleOrderDirectionCarried(c *eng.Ctx, rule string) {
+	n := 0
+	for _, fi := range c.P.Funcs() {
+		if fi.Decl.Body == nil || !pkgMatch(eng.ShortPkg(fi.Pkg.PkgPath), []string{"internal/planner/...", "internal/request/..."}) || isTestFile(c.P, fi) {
+			continue
+		}
+		info := fi.Pkg.TypesInfo
+		ord := 0
+		ast.Inspect(fi.Decl.Body, func(m ast.Node) bool {
+			cl, ok := m.(*ast.CompositeLit)
+			if !ok {
+				return true
+			}
+			t := info.TypeOf(cl)
+			if t == nil {
+				return true
+			}
+			tn := eng.TypeName(t)
+			if tn != "internal/planner/mapper.OrderCondition" && tn != "client/request.OrderCondition" {
+				return true
+			}
+			ord++
+			n++
+			construct := fmt.Sprintf("%s:OrderCondition-literal#%d", shortFn(fi), ord)
+			if len(cl.Elts) == 0 {
+				c.OK(rule, construct, cl.Pos(), "empty literal (filled field by field)")
+				return true
+			}
+			hasDir, keyed := false, false
+			for _, el := range cl.Elts {
+				if kv, ok := el.(*ast.KeyValueExpr); ok {
+					keyed = true
+					if id, ok := kv.Key.(*ast.Ident); ok && id.Name == "Direction" {
+						hasDir = true
+					}
+				}
+			}
+			c.Check(!keyed || hasDir, rule, construct, cl.Pos(), "direction set explicitly",
+				"an order condition is built from a field path without its direction: a descending order is silently evaluated ascending (and the order node may already have been removed in favour of the index)")
+			return true
+		})
+	}
+	c.Floor(rule, n, 3)
+}
+
+// ruleJoinEnd: a join iterator reports end of iteration — `return false` with a nil(-able) error —
+// only when its first-side source is exhausted. A first-side document that yields nothing (no
+// related document, filtered out, not readable) must be skipped, not end the iteration: everything
+// after it would be dropped. Checked for every (bool, error) method of invertibleTypeJoin: at each
+// `return false, E`, under the assumption "no error so far and every source Next() returned true",
+// the enclosing conditions must be unsatisfiable.
+func ruleJoinEnd(c *eng.Ctx) {
+	const rule = "JOIN-END"
+	n := 0
+	for _, fi := range c.P.FuncsIn("internal/planner") {
+		if fi.Decl.Body == nil || !strings.Contains(fi.Name, "(*invertibleTypeJoin)") || isTestFile(c.P, fi) {
+			continue
+		}
+		sig := fi.Obj.Type().(*types.Signature)
+		if sig.Results().Len() != 2 || !eng.IsErrorType(sig.Results().At(1).Type()) {
+			continue
+		}
+		if b, ok := sig.Results().At(0).Type().Underlying().(*types.Basic); !ok || b.Kind() != types.Bool {
+			continue
+		}
+		info := fi.Pkg.TypesInfo
+		// bools assigned from a Next() call
+		hasVars := map[types.Object]bool{}
+		errVars := map[types.Object]bool{}
+		ast.Inspect(fi.Decl.Body, func(m ast.Node) bool {
+			as, ok := m.(*ast.AssignStmt)
+			if !ok || len(as.Rhs) != 1 {
+				return true
+			}
+			call, ok := ast.Unparen(as.Rhs[0]).(*ast.CallExpr)
+			if !ok {
+				return true
+			}
+			if se, ok := call.Fun.(*ast.SelectorExpr); ok && se.Sel.Name == "Next" && len(as.Lhs) == 2 {
+				if o := eng.ObjOf(info, as.Lhs[0]); o != nil {
+					hasVars[o] = true
+				}
+			}
+			for _, l := range as.Lhs {
+				if o := eng.ObjOf(info, l); o != nil && eng.IsErrorType(o.Type()) {
+					errVars[o] = true
+				}
+			}
+			return true
+		})
+		atom := func(e ast.Expr) eng.Tri {
+			if o := eng.ObjOf(info, e); o != nil && hasVars[o] {
+				return eng.True
+			}
+			for o := range errVars {
+				if is, nonNilWhenTrue := eng.ErrNilTest(info, e, o); is {
+					return eng.TriOf(!nonNilWhenTrue) // err == nil assumed
+				}
+			}
+			return eng.Unknown
+		}
+		var stack []ast.Node
+		ord := 0
+		ast.Inspect(fi.Decl.Body, func(m ast.Node) bool {
+			if m == nil {
+				stack = stack[:len(stack)-1]
+				return true
+			}
+			stack = append(stack, m)
+			r, ok := m.(*ast.ReturnStmt)
+			if !ok || len(r.Results) != 2 {
+				return true
+			}
+			if tv, ok := info.Types[r.Results[0]]; !ok || tv.Value == nil || tv.Value.ExactString() != "false" {
+				return true
+			}
+			ord++
+			n++
+			construct := fmt.Sprintf("%s:return-false#%d", shortFn(fi), ord)
+			// conjunction of enclosing if-conditions (then-branches; else-branches negated)
+			feasible := true
+			for i, s := range stack {
+				is, ok := s.(*ast.IfStmt)
+				if !ok || i+1 >= len(stack) {
+					continue
+				}
+				t := eng.EvalBool(info, is.Cond, atom)
+				inThen := stack[i+1] == ast.Node(is.Body)
+				if inThen && t == eng.False || !inThen && stack[i+1] == is.Else && t == eng.True {
+					feasible = false
+				}
+			}
+			c.Check(!feasible, rule, construct, r.Pos(), "reached only on an error or when the first side is exhausted",
+				"the join reports end of iteration although no error occurred and its source still has documents: a first-side document with nothing to yield ends the join instead of being skipped, every later match is dropped")
+			return true
+		})
+	}
+	c.Floor(rule, n, 3)
 }
